@@ -633,6 +633,7 @@ def unit_limit(which):
     islimit = And(cmp(">=", efcid, arith("+", ne, nf)), cmp("<", efcid, arith("+", arith("+", ne, nf), nl)))
     mine = And(islimit, cmp("==", eid, objid), Or(And(cmp("==", st, int(jt)), cmp("==", et, int(C.LIMIT_JOINT))), And(cmp("==", st, int(tt)), cmp("==", et, int(C.LIMIT_TENDON)))))
     bg = kt.bg + [core.zbool(Or(cmp("==", st, int(jt)), cmp("==", st, int(tt)))), ne >= 0, nf >= 0, nl >= 0]
+    bg += [core.zbool(kt.inshape(lab, w, efcid)) for lab in ([val_label] + (["efc_margin_in"] if which == "pos" else []))]
     sess = ctx.session(bg)
     ctx.reach(sess, "twin:matching-row", mine)
     val = kt.pre(val_label, w, efcid)
